@@ -65,11 +65,62 @@ def strip_unused_co_import(path):
     return True
 
 
+def opt_structure(b, progs):
+    """Optimiser model vs real optimiser: optimise(model's unoptimised Start argument) = Start argument in <dst>."""
+    import structcheck
+    import optstruct
+    trees = {}
+    for stage in ("tmp", "out"):
+        d = os.path.join(b.work, stage)
+        if os.path.isdir(d):
+            for t in structcheck.abstract_dirs(b.work, [d]):
+                if "func" in t:
+                    trees[(stage, t["pkg"], t["func"])] = t["start"]
+    rows, names, unknown, why = [], [], 0, {}
+    for p in progs:
+        if p.get("body") is None or not structcheck.eligible(p["body"]):
+            continue
+        ko, kt = ("out", p["pkg"], p["name"]), ("tmp", p["pkg"], p["name"])
+        if ko not in trees or kt not in trees:
+            continue
+        try:
+            src = structcheck.src_stmts(p["body"]) + [{"s": "return"}]
+            rows.append(optstruct.row(src, structcheck.tgt_sexp(trees[ko])))
+            names.append(p["name"])
+        except structcheck.Unknown as ex:
+            unknown += 1
+            why[str(ex)[:40]] = why.get(str(ex)[:40], 0) + 1
+    mism, okc = [], 0
+    if rows:
+        w = C.workdir("optst")
+        try:
+            mm, okc = optstruct.compare(w, rows)
+            mism = [(names[i], code) for i, code in mm]
+        finally:
+            C.rmtree(w)
+    changed = sum(1 for p in progs if ("out", p.get("pkg"), p["name"]) in trees and trees.get(("out", p["pkg"], p["name"])) != trees.get(("tmp", p["pkg"], p["name"])))
+    return {"compared": len(rows), "mismatches": mism, "not_comparable": unknown, "not_comparable_why": why, "satisfy_opt_ok_side_condition": okc,
+            "programs_changed_by_the_optimiser": changed}
+
+
 def run(rep, tier, pid, gover="1.21", n=None):
     rng = random.Random(C.seed() * 86028121 + int(pid[1:]))
     if n is None:
         n = 150 if tier == "quick" else 1500
     progs = cdiff.gen_programs(rng, n, feats={"postyield", "vars", "closures", "range", "yieldfrom"})
+    # control-flow-only programs for the structural correspondence of the optimiser model (coq/Opt.v);
+    # a third of their yields become yields of a literal (the Delay around Bind(<literal>, ..) is elided)
+    plain = cdiff.gen_programs(random.Random(rng.random()), n, feats={"postyield"})
+    for k, p in enumerate(plain):
+        p["name"] = "Q%d" % k
+        lit = random.Random(k)
+
+        def litify(st, p_):
+            if st["s"] == "yield" and lit.random() < 0.35:
+                st["s"], st["x"] = "yieldx", str(st.pop("id"))
+        if p.get("body") is not None:
+            pgen.walk(p["body"], litify)
+    progs = progs + plain
     b = cdiff.make_batch(pid + gover.replace(".", ""), progs, gover=gover)
     res = {"progs": progs}
     try:
@@ -79,6 +130,7 @@ def run(rep, tier, pid, gover="1.21", n=None):
         open(os.path.join(b.work, "ref", "oc", "oc.go"), "w").write(optcorpus.render("ref"))
         b.pkgs["oc"] = {"oc": [(name, None) for name in optcorpus.GENS]}
         b.compile()
+        res["opt_struct"] = opt_structure(b, progs)
         for root, _, files in os.walk(os.path.join(b.work, "tmp")):
             for f in files:
                 if f.endswith(".go"):
